@@ -232,6 +232,72 @@ class C15(Prop):
         finally:
             sessions.close_loop(loop)
 
+    # ---- a caller that gives up (its own enclosing timeout) while blocked must not take the connection down
+    @staticmethod
+    def impatient_scenario(case):
+        from aiorpcx import RPCSession, ignore_after, timeout_after, TaskTimeout
+        loop = sessions.new_loop()
+        try:
+            aborts = []
+
+            async def main():
+                proto, ft, s = sessions.attach(RPCSession, case.get('kind', 'server'), case['transport'])
+                orig_abort = ft.abort
+
+                def abort():
+                    aborts.append(loop.time())
+                    return orig_abort()
+                ft.abort = abort
+                proto.pause_writing()
+                ft.paused = True
+                t0 = loop.time()
+                out = {}
+
+                async def impatient():
+                    try:
+                        if case['form'] == 'ignore':
+                            async with ignore_after(case['patience']):
+                                await s.send_notification('impatient', [1])
+                        else:
+                            async with timeout_after(case['patience']):
+                                await s.send_request('impatient', [1])
+                        out['impatient'] = 'returned'
+                    except TaskTimeout:
+                        out['impatient'] = 'TaskTimeout'
+                    except BaseException as e:
+                        out['impatient'] = type(e).__name__
+
+                async def patient():
+                    try:
+                        await s.send_notification('patient', [2])
+                        out['patient'] = 'sent'
+                    except BaseException as e:
+                        out['patient'] = type(e).__name__
+                ts = [loop.create_task(impatient()), loop.create_task(patient())]
+                await asyncio.sleep(case['stall'])
+                ft.paused = False
+                proto.resume_writing()
+                await asyncio.sleep(1.0)
+                wire = [m.get('method') for m in sessions.sent_messages(ft) if isinstance(m, dict)]
+                for x in ts:
+                    x.cancel()
+                return {'aborts': [a - t0 for a in aborts], 'out': out, 'lost': ft.lost, 'closing': ft.closing, 'wire': wire,
+                        'max_send_delay': s.max_send_delay}
+            return loop.run_until_complete(main())
+        finally:
+            sessions.close_loop(loop)
+
+    @staticmethod
+    def impatient_oracle(case, obs):
+        if obs['aborts'] or obs['lost'] or obs['closing']:
+            return (f"the connection was aborted {obs['aborts']} s into a stall of {case['stall']} s (max_send_delay = "
+                    f"{obs['max_send_delay']} s) because one caller's own timeout of {case['patience']} s expired")
+        if obs['wire'].count('patient') != 1:
+            return f"a blocked message was written {obs['wire'].count('patient')} times once room was reported (wire: {obs['wire']})"
+        if obs['out'].get('patient') != 'sent':
+            return f"the patient sender ended with {obs['out'].get('patient')}"
+        return None
+
     @staticmethod
     def stall_oracle(case, obs):
         d = obs['max_send_delay']
@@ -269,7 +335,17 @@ class C15(Prop):
                     cl = self.stall_oracle(case, obs)
                     if cl:
                         out.append(Failure(case, obs, cl + f' (blocked sender: a {sender}, sent_request_timeout = {srt})'))
-        ctx['notes'].append(f'stalled-peer scenarios on a real session: {n} (with and without a graceful close pending)')
+            for form in ('ignore', 'timeout'):
+                for patience, stall in ((2.0, 5.0), (0.5, 19.0), (10.0, 12.0)):
+                    case = {'impatient': True, 'transport': transport, 'form': form, 'patience': patience, 'stall': stall,
+                            'kind': 'client' if form == 'timeout' else 'server'}
+                    obs = self.impatient_scenario(case)
+                    n += 1
+                    ctx['extra_evals'] += 1
+                    cl = self.impatient_oracle(case, obs)
+                    if cl:
+                        out.append(Failure(case, obs, cl))
+        ctx['notes'].append(f'stalled-peer scenarios on a real session: {n} (with and without a graceful close pending; blocked callers that give up)')
         return out[:3]
 
     def nontrivial(self, case, obs):
